@@ -14,4 +14,17 @@ def C03dim (e : Entry) : Bool := checkDim classes e
 /-- C03: operator result dimensions are sums / differences of operand dimensions. -/
 def C03op (e : Entry) : Bool := checkOpDims classes e
 
+/-- C04: operators and compound assignments are the one operation on the stored components. -/
+def C04arith (e : Entry) : Bool := checkArith e
+/-- C04: `<cmath>` overloads on dimensionless scalars. -/
+def C04std (e : Entry) : Bool := checkStdMath e
+/-- C04: constructor / operator twins have identical traces. -/
+def C04twin (t : Entry × Entry × Bool) : Bool := checkTwin t.1 t.2.1 t.2.2
+
+/-- C04: a compound assignment and the pure operator of the same signature have identical traces. -/
+def C04compound (t : Entry × Entry × Bool) : Bool :=
+  match t.1.numOuts, t.2.1.numOuts with
+  | some a, some b => a == b
+  | _, _ => false
+
 end PhQVerif.Chk
